@@ -132,6 +132,7 @@ int main(int argc, char** argv) {
     State A;
     A.kind = (Kind)r.below(NKinds);
     A.content = genContent(r, genSize(r));
+    if (A.kind == File && r.chance(1, 8)) A.content = r.chance(1, 2) ? tgt : tgt + ".nowhere";   // the very bytes a symbolic link here would hold as its target
     A.sec = r.chance(1, 20) ? 0 : nextMtime + r.below(1000); A.nsec = r.chance(1, 4) ? 0 : r.below(1000000000);
     materialize(p, tgt, A);
     int trans = (int)r.below(9);
@@ -174,6 +175,9 @@ int main(int argc, char** argv) {
       State B = A; B.kind = (Kind)((A.kind + 1 + r.below(NKinds - 1)) % NKinds);
       if (r.chance(1, 2)) B.content = genContent(r, r.chance(1, 2) ? A.content.size() : genSize(r));
       if (r.chance(1, 2)) { B.sec = A.sec + r.below(3); }
+      // a link replaced by a regular file holding exactly the link's target string (same size, same bytes, another type), and the reverse
+      if ((A.kind == LinkToFile || A.kind == Dangling) && B.kind == File && r.chance(1, 2)) B.content = A.kind == Dangling ? tgt + ".nowhere" : tgt;
+      if (A.kind == File && (A.content == tgt || A.content == tgt + ".nowhere")) { B.kind = A.content == tgt ? LinkToFile : Dangling; if (B.kind == LinkToFile) B.content = genContent(r, genSize(r)); }
       materialize(p, tgt, B); what += std::string("->") + kindName[B.kind];
       break; }
     case 8:
